@@ -1,3 +1,25 @@
 import PandoraModel.Properties.C06
 open Pandora.C06
-#print axioms clamp1_le
+#print axioms flags_tied
+#print axioms vfit_shift_le_half
+#print axioms method_refine
+#print axioms method_stop
+#print axioms quadratic_raises_iff
+#print axioms parab_interpolates
+#print axioms parab_apex_optimal
+#print axioms vshape_apex_optimal
+#print axioms vshape_apex_unique
+#print axioms ends_agree_of_onGrid
+#print axioms ends_agree_offGrid
+#print axioms refinePixel_core
+#print axioms inside_of_onGrid
+#print axioms refinePixel_spec
+#print axioms vfit_pixel_spec
+#print axioms refinePixel_spec_offGrid
+#print axioms refinePixel_total
+#print axioms loop_spec
+#print axioms loop_total_vfit
+#print axioms quadratic_flat_counterexample
+#print axioms bit3_twice_counterexample
+#print axioms offgrid_wraparound_counterexample
+#print axioms offgrid_past_end_counterexample
